@@ -315,8 +315,8 @@ impl<'a> MetricBuilderContext<'a> {
             .collect();
         let last_flush = if self.label_index == 0 {
             quote! {
-                last_flush: Cell<u64>,
-                flush_millis: u64,
+                __last_flush: Cell<u64>,
+                __flush_millis: u64,
             }
         } else {
             Tokens::new()
@@ -360,7 +360,7 @@ impl<'a> MetricBuilderContext<'a> {
 
         quote! {
             pub struct #outer_struct_name {
-                inner: &'static LocalKey<#inner_struct_name>,
+                __inner: &'static LocalKey<#inner_struct_name>,
                 #(
                   pub #field_names: #member_type,
                 )*
@@ -406,7 +406,7 @@ impl<'a> MetricBuilderContext<'a> {
                 #impl_get
 
                 pub fn flush(&self) {
-                    self.inner.with(|m| m.flush())
+                    self.__inner.with(|m| m.flush())
                 }
             }
         }
@@ -424,7 +424,7 @@ impl<'a> MetricBuilderContext<'a> {
 
                 impl ::prometheus::local::MayFlush for #struct_name {
                     fn may_flush(&self) {
-                        MayFlush::try_flush(self, &self.last_flush, self.flush_millis)
+                        MayFlush::try_flush(self, &self.__last_flush, self.__flush_millis)
                     }
                 }
             }
@@ -523,19 +523,21 @@ impl<'a> MetricBuilderContext<'a> {
                 ) -> #delegator_name {
                     let x = unsafe { MaybeUninit::<#member_type>::uninit().assume_init() };
                     let branch_offset = (&x as *const #member_type) as usize;
-                    #(
-                      let #delegator_field_names = #delegator_member::new(
-                      root,
-                      #known_offsets_tokens
-                      &(x.#delegator_field_names) as *const #next_member_type as usize - branch_offset,
-                      );
-                    )*
-                    mem::forget(x);
-                    #delegator_name {
+                    // The user-chosen value names are only used as field names
+                    // here, never as local variables, so that a value called
+                    // `x`, `root`, `branch_offset` or `offset1` cannot shadow
+                    // the locals above.
+                    let delegator = #delegator_name {
                         #(
-                         #delegator_field_names,
+                          #delegator_field_names: #delegator_member::new(
+                          root,
+                          #known_offsets_tokens
+                          &(x.#delegator_field_names) as *const #next_member_type as usize - branch_offset,
+                          ),
                         )*
-                    }
+                    };
+                    mem::forget(x);
+                    delegator
                 }
             }
         }
@@ -556,20 +558,19 @@ impl<'a> MetricBuilderContext<'a> {
                 let x = unsafe { MaybeUninit::<#inner_struct_name>::uninit().assume_init() };
                 let branch_offset = &x as *const #inner_struct_name as usize;
 
-                #(
-                  let #field_names = #delegator_name::new(
-                  &inner,
-                  &(x.#field_names) as *const #inner_member_type as usize - branch_offset,
-                  );
-                )*
+                // See `build_delegator_impl_new`: value names are used as field
+                // names only.
+                let outer = #outer_struct_name {
+                    #(
+                      #field_names: #delegator_name::new(
+                      &inner,
+                      &(x.#field_names) as *const #inner_member_type as usize - branch_offset,
+                      ),
+                    )*
+                    __inner: inner,
+                };
                 mem::forget(x);
-
-            #outer_struct_name {
-             inner,
-             #(
-                #field_names,
-             )*
-            }
+                outer
            }
         }
     }
@@ -675,8 +676,8 @@ impl<'a> MetricBuilderContext<'a> {
 
         let init_instant = if self.label_index == 0 {
             quote! {
-            last_flush: Cell::new(prometheus::timer::now_millis()),
-            flush_millis: 1000,
+            __last_flush: Cell::new(prometheus::timer::now_millis()),
+            __flush_millis: 1000,
             }
         } else {
             Tokens::new()
@@ -748,7 +749,7 @@ impl<'a> MetricBuilderContext<'a> {
         if self.label_index == 0 {
             quote! {
                 pub fn with_flush_duration(mut self, duration: std::time::Duration) -> Self {
-                    self.flush_millis = prometheus::timer::duration_to_millis(duration);
+                    self.__flush_millis = prometheus::timer::duration_to_millis(duration);
                     self
                 }
             }
